@@ -37,6 +37,7 @@ inductive POp
   | mutate (k : Coll)
   | reload (k : Coll)       -- the real `reload::Handle::reload`: mutate (event `modify:unlocked`), then rebuild
   | sgd (c : Nat)           -- `set_global_default` with collector c (events `sgd:ok` / `sgd:err`)
+  | dropemit                -- (pre only) plain collectors emit an event while they are dropped
 
 def splitOn' (sep : String) : List String → List String → List (List String)
   | [], cur => [cur.reverse]
@@ -52,6 +53,7 @@ def parseOp : List String → Option POp
   | ["rl", c, spec] => do let c ← c.toNat?; let k ← parseSpec c spec; pure (.reload k)
   | ["rlb", c, spec] => do let c ← c.toNat?; let k ← parseSpec c spec; pure (.reload k)      -- (with a yield point inside the write-locked section)
   | ["sgd", c] => c.toNat?.map .sgd
+  | ["dropemit", _] => some .dropemit
   | _ => none
 
 def parseOps (toks : List String) : Option (List POp) :=
@@ -211,6 +213,9 @@ def judge (toks : List String) : String :=
         match checkObs (finalColls pre threads events) (aliveAtEnd pre threads) (obs.filter (fun o => o ≠ "-" && !o.startsWith "gd:")) with
         | some e => s!"bad {e}"
         | none =>
+          -- (collectors that emit while being dropped perform emissions that are no operation of the scenario: such runs are
+          --  judged by their status — no panic, no deadlock — and the quiescent oracle alone)
+          if pre.any (fun | .dropemit => true | _ => false) then "ok" else
           -- (2) the run is a run of the proved transition system
           let U := usedCs threads
           let s0 := pre.foldl (fun s op => match op with
